@@ -276,7 +276,7 @@ fn run_crash(case: &RunCase) -> CaseReport {
                         let input = match step {
                             RStep::Post { content, .. } => content.clone(),
                             RStep::PostWrite { n } => json!({"tool":"write","args":{"path": format!("w{n}.txt"), "content": format!("content {n}")}}).to_string(),
-                            RStep::PostBash { n } => json!({"tool":"bash","args":{"command": format!("echo {n} > b{n}.txt")}}).to_string(),
+                            RStep::PostBash { n } => json!({"tool":"bash","args":{"command": format!("echo {n} > b{n}.txt"), "cwd": "."}}).to_string(),
                             _ => unreachable!(),
                         };
                         let (_s, v) = post(input).await;
